@@ -233,8 +233,8 @@ func (g *egen) boolean(d int) (*enode, ev) {
 			var lv, rv ev
 			l, lv = g.num(d - 1)
 			rt, rv = g.num(d - 1)
-			if r.Chance(25) { // close neighbours far beyond 2^53: equal as floats, different as ints
-				pair := [][2]int{{9, 10}, {10, 9}, {9, 9}, {11, 11}}[r.Intn(4)]
+			if r.Chance(50) { // close neighbours far beyond 2^53: equal as floats, different as ints
+				pair := [][2]int{{9, 10}, {10, 9}, {9, 9}, {9, 10}, {10, 9}, {12, 12}}[r.Intn(6)]
 				l, lv = atom(intAtoms[pair[0]].src), ev{k: 'i', i: intAtoms[pair[0]].v}
 				rt, rv = atom(intAtoms[pair[1]].src), ev{k: 'i', i: intAtoms[pair[1]].v}
 			}
@@ -381,6 +381,9 @@ func genExprCase(r *h.Rand) h.Case {
 	case 0:
 		root, rv = g.num(d)
 	case 1:
+		if d < 2 {
+			d = 2 // deep enough for a comparison or a connective at the root
+		}
 		root, rv = g.boolean(d)
 	default:
 		root, rv = g.str(d)
